@@ -6,6 +6,7 @@ package main
 
 import (
 	"bufio"
+	"bytes"
 	"encoding/json"
 	"flag"
 	"fmt"
@@ -37,6 +38,7 @@ type cnDriver struct {
 	nEvents int
 	// bookkeeping for the scenario generator
 	lastProj map[string]any
+	lastReg  map[string]any
 	sent     [][]byte // previously included raw transactions (for replays)
 	diverged []map[string]any
 	panics   []string
@@ -44,6 +46,9 @@ type cnDriver struct {
 	paths    map[string]int
 	txKinds  map[string]int
 	sched    [][]string // optional per-height path assignment (from TLC)
+	nodeRts  map[string]string            // runtimes each node is currently registered for
+	pendRts  map[*cnTxSpec]string         // proposed runtime lists of not yet executed registrations
+	rtOwner  map[string]string            // registered runtimes -> owning entity
 	epoch    int64
 }
 
@@ -57,7 +62,14 @@ func (d *cnDriver) emit(m map[string]any) {
 		m["evidence"] = []int{}
 	}
 	d.nEvents++
-	d.w.Write(mustJSON(m))
+	raw := mustJSON(m)
+	if bytes.Contains(raw, []byte("null")) {
+		var v any
+		if json.Unmarshal(raw, &v) == nil {
+			raw = mustJSON(dropNulls(v))
+		}
+	}
+	d.w.Write(raw)
 	d.w.WriteByte('\n')
 }
 
@@ -71,6 +83,37 @@ func valRecords(vu []string) []map[string]any {
 		out = append(out, map[string]any{"cons": parts[0], "power": p})
 	}
 	return out
+}
+
+// dropNulls replaces JSON nulls (which TLC's Json module cannot read) by empty lists, recursively.
+func dropNulls(v any) any {
+	switch x := v.(type) {
+	case nil:
+		return []any{}
+	case map[string]any:
+		for k, e := range x {
+			x[k] = dropNulls(e)
+		}
+		return x
+	case []any:
+		for i, e := range x {
+			x[i] = dropNulls(e)
+		}
+		return x
+	}
+	return v
+}
+
+// nodeActive reports whether the last recorded registry state has the node registered and unexpired at the epoch.
+func (d *cnDriver) nodeActive(name string, epoch int64) bool {
+	nodes, _ := d.lastReg["nodes"].([]map[string]any)
+	for _, nd := range nodes {
+		if nd["id"] == name {
+			exp, _ := nd["exp"].(int64)
+			return exp >= epoch+1
+		}
+	}
+	return false
 }
 
 func consAddrIndex(n *cnNet, pubHex string) int {
@@ -167,6 +210,9 @@ func (d *cnDriver) genSpec() cnTxSpec {
 		sp.To = fmt.Sprintf("E%d", d.rng.Intn(ents))
 		if d.rng.Intn(6) == 0 {
 			sp.To = other.name
+		}
+		if d.rng.Intn(7) == 0 {
+			sp.To = []string{"RA0", "RA1"}[d.rng.Intn(2)] // stake for a runtime-governed runtime's own account
 		}
 		sp.Amount = amtClass(bal)
 	case "reclaim":
@@ -304,13 +350,46 @@ func (d *cnDriver) step() error {
 			}
 			nonce := uint64(d.acctField(v.name, "n")) + nonceBump[v.name]
 			rot := []string{"", "", "fresh:p2p", "fresh:tls", "fresh:vrf", "move:tls>p2p", "move:vrf>p2p", "move:tls>vrf", "move:p2p>tls", "swap:p2p:tls", "swap:vrf:tls"}[d.rng.Intn(11)]
-			sp := &cnTxSpec{Kind: "regnode", Signer: v.name, Node: v.name, Amount: epochNow + 2 + int64(d.rng.Intn(2)), Nonce: nonce, Gas: 5000, Validity: "ok", Rotate: rot}
+			rts := d.nodeRts[v.name]
+			validity := "ok"
+			switch x := d.rng.Intn(12); {
+			case x < 3 && len(d.rtOwner) > 0 && rts == "":
+				for r := range d.rtOwner { // join a registered runtime as a compute worker
+					rts = r
+					break
+				}
+			case x == 3 && rts != "" && i != 1 && d.nodeActive(v.name, epochNow):
+				rts, validity = "", "dropruntime" // an active node may not drop a runtime: must fail (node 1 always renews: precondition)
+			}
+			sp := &cnTxSpec{Kind: "regnode", Signer: v.name, Node: v.name, Amount: epochNow + 2 + int64(d.rng.Intn(2)), Nonce: nonce, Gas: 5000, Validity: validity, Rotate: rot, Runtimes: rts}
+			d.pendRts[sp] = rts
 			raw, err := n.buildTx(sp, d.rng)
 			if err != nil {
 				return err
 			}
 			nonceBump[v.name]++
 			metas = append(metas, cnTxMeta{sp, raw})
+		}
+	}
+	if d.rng.Intn(8) == 0 {
+		// runtime registrations and updates: by the owner (incl. governance-model transitions) and by somebody else
+		r := []string{"R0", "R1"}[d.rng.Intn(2)]
+		owner, exists := d.rtOwner[r]
+		e := fmt.Sprintf("E%d", d.rng.Intn(n.cfg.Validators))
+		validity := "ok"
+		if exists && owner != e {
+			if d.rng.Intn(2) == 0 {
+				e = owner
+			} else {
+				validity = "notowner"
+			}
+		}
+		sp := &cnTxSpec{Kind: "regruntime", Signer: e, To: r, Gov: []string{"entity", "entity", "runtime"}[d.rng.Intn(3)], Nonce: uint64(d.acctField(e, "n")) + nonceBump[e], Gas: 5000, Validity: validity}
+		if raw, err := n.buildTx(sp, d.rng); err == nil {
+			nonceBump[e]++
+			metas = append(metas, cnTxMeta{sp, raw})
+		} else {
+			return err
 		}
 	}
 	if d.rng.Intn(6) == 0 {
@@ -523,6 +602,15 @@ func (d *cnDriver) observe(b *cnBlock, metas []cnTxMeta) cnBlockResult {
 			evn := map[string]any{"ev": "tx", "h": b.Height, "i": i, "id": th.String()[:16], "code": int64(resp.Code), "module": resp.Codespace,
 				"gas_used": resp.GasUsed, "nraw": len(changed), "state": proj, "env": env}
 			if sp := specOf[string(tx)]; sp != nil {
+				if rts, ok := d.pendRts[sp]; ok {
+					if resp.Code == 0 {
+						d.nodeRts[sp.Node] = rts
+					}
+					delete(d.pendRts, sp)
+				}
+				if sp.Kind == "regruntime" && resp.Code == 0 {
+					d.rtOwner[sp.To] = sp.Signer
+				}
 				if cand, ok := n.pendingRot[sp]; ok {
 					if resp.Code == 0 {
 						var idx int
@@ -553,6 +641,7 @@ func (d *cnDriver) observe(b *cnBlock, metas []cnTxMeta) cnBlockResult {
 		}
 		res.AppHash = r.commit()
 		d.lastProj = proj
+		d.lastReg = regp
 		d.emit(map[string]any{"ev": "reg", "h": b.Height, "reg": regp})
 		d.emit(map[string]any{"ev": "end", "h": b.Height, "state": proj, "valupd": res.ValUpd, "valupd2": valRecords(res.ValUpd), "apphash": res.AppHash[:16]})
 	})
@@ -583,7 +672,9 @@ func consRun(args []string) int {
 	schedFile := fs.String("schedule", "", "JSON file: list of per-height path rows (from TLC)")
 	onDisk := fs.Bool("ondisk", true, "validator replicas keep their state on disk (enables restart paths)")
 	maxVals := fs.Int("maxvals", 3, "scheduler MaxValidators")
+	maxPerEntity := fs.Int("maxperentity", 1, "scheduler MaxValidatorsPerEntity")
 	extraNodes := fs.Int("extranodes", 0, "additional validator nodes run by entity 0 (per-entity limit stays 1)")
+	sanity := fs.Bool("sanity", false, "register the in-tree supplementary sanity checker in the observer (it halts the chain on a failure; TLC is the oracle, so it is off by default)")
 	concurrent := fs.Bool("concurrent", true, "run CheckTx / EstimateGas / state queries in goroutines while validator replicas execute blocks")
 	logLevel := fs.String("log", "", "oasis-core log level to stderr (debug|info|warn|error); empty = no logging")
 	fs.Parse(args)
@@ -606,14 +697,14 @@ func consRun(args []string) int {
 	}
 	defer w.Close()
 	cfg := cnCfg{Validators: *vals, Users: *users, EpochInterval: *interval, Seed: *seed, ChainID: fmt.Sprintf("verif-chain-%d", *seed),
-		MaxValidators: *maxVals, MaxPerEntity: 1, ExtraNodes: *extraNodes}
+		MaxValidators: *maxVals, MaxPerEntity: *maxPerEntity, ExtraNodes: *extraNodes}
 	net, err := newNet(cfg, *scratch)
 	if err != nil {
 		fmt.Fprintln(os.Stderr, "net:", err)
 		return 2
 	}
 	d := &cnDriver{net: net, valset: map[int]int64{}, rng: rand.New(rand.NewSource(*seed)), w: bufio.NewWriterSize(w, 1<<20),
-		paths: map[string]int{}, txKinds: map[string]int{}}
+		paths: map[string]int{}, txKinds: map[string]int{}, nodeRts: map[string]string{}, pendRts: map[*cnTxSpec]string{}, rtOwner: map[string]string{}}
 	defer d.w.Flush()
 	if *schedFile != "" {
 		raw, err := os.ReadFile(*schedFile)
@@ -622,7 +713,7 @@ func consRun(args []string) int {
 			return 2
 		}
 	}
-	obs, err := net.newReplica("obs", cnReplicaCfg{Backend: "pathbadger", Identity: 0, Probes: true, Sanity: true})
+	obs, err := net.newReplica("obs", cnReplicaCfg{Backend: "pathbadger", Identity: 0, Probes: true, Sanity: *sanity})
 	if err != nil {
 		fmt.Fprintln(os.Stderr, "observer:", err)
 		return 2
